@@ -69,6 +69,7 @@ type Event struct {
 	Sink   int    // tx: sink id
 	Seen   []bool // rx: per handle, passed the filter and was queued
 	Thread int    // tx: managed thread that wrote it
+	CallT  int64  // tx: the instant the bytes were passed to WriteTo (= T unless the call itself took time)
 }
 
 type Reply struct {
@@ -85,7 +86,7 @@ type Script interface {
 type Fault struct {
 	Op    string `json:"op"`
 	K     int    `json:"k"`     // k-th call of Op in the execution (1-based)
-	Class string `json:"class"` // fatal | deadline | zero
+	Class string `json:"class"` // fatal | deadline | zero | stall (WriteTo: the call takes StallNs, then succeeds)
 }
 
 type Call struct {
@@ -96,6 +97,7 @@ type Call struct {
 
 type Net struct {
 	Script      Script
+	StallNs     int64 // how long a send call of fault class "stall" takes (default 15ms)
 	Faults      []Fault
 	FiltersOff  bool
 	EpsNs       int64 // cost of one Read
@@ -230,13 +232,24 @@ func (s *Sink) WriteTo(buf []byte, addr netip.AddrPort) error {
 		s.UseAfterClose++
 		return os.ErrClosed
 	}
-	if c := n.fault("WriteTo", s.ID); c != "" {
+	callT := vsched.Now()
+	if c := n.fault("WriteTo", s.ID); c == "stall" {
+		// the send call waits for buffer space and then succeeds: the packet reaches the network when the call returns
+		st := n.StallNs
+		if st == 0 {
+			st = 15_000_000
+		}
+		vtime.Sleep(time.Duration(st))
+		if vsched.Aborting() {
+			return nil
+		}
+	} else if c != "" {
 		return injErr("sendto", c)
 	}
 	s.Writes++
 	raw := append([]byte{}, buf...)
 	p, err := refcodec.Parse(raw)
-	ev := Event{T: vsched.Now(), Dir: "tx", Raw: raw, P: p, Sink: s.ID, Thread: vsched.CurrentThread(), Meta: Meta{ToTTL: -1, Flow: s.ID}}
+	ev := Event{T: vsched.Now(), Dir: "tx", Raw: raw, P: p, Sink: s.ID, Thread: vsched.CurrentThread(), Meta: Meta{ToTTL: -1, Flow: s.ID}, CallT: callT}
 	n.Ledger = append(n.Ledger, ev)
 	n.Order = append(n.Order, OrderEv{"tx", s.ID, s.ID})
 	if err == nil && (p.Proto == refcodec.ProtoUDP || p.Proto == refcodec.ProtoTCP) && s.Writes == 1 && !n.NoPortCheck {
